@@ -29,7 +29,19 @@
 //!  * evaluation instants around the EE validity bounds down to 1 ns; repeated
 //!    validation of one decoded value over all pairs / triples of settings;
 //!  * CRL callback {Ok, Err} x condition through `process()`;
-//!  * every single-bit flip of one valid object of each kind, both modes.
+//!  * every single-bit flip of one valid object of each kind, both modes;
+//!  * ignored fields: every field of the object and of its EE certificate that the
+//!    acceptance predicate does not name (signing-time value and form, further
+//!    attributes / certificates / CRLs, EE serial, names, validity wider or narrower
+//!    than the issuer's, URIs, extensions, ROA asID, ASPA providers, manifest number
+//!    and update times, ...) x all satisfied / every single violation, singly and in
+//!    pairs; issuer window x EE window x signing time x evaluation instant over one
+//!    5-point domain;
+//!  * history: on a new OS thread one predecessor leaving at every distinct stage
+//!    (thorough: every pair), then all subjects forward and in reverse, against their
+//!    fresh-thread observations; every entry point (decode, take_from, decode_if_type,
+//!    validate, validate_at, process, clone, re-encode, typed wrappers, serde) x every
+//!    single violation; the subject set under 7 TZ settings in child processes.
 //!
 //! Reference model: the condition vector itself (accept <=> all true); for
 //! coverage a bitmask over the atoms.
@@ -229,7 +241,9 @@ fn mft_content(files: &[(Vec<u8>, u8)]) -> Vec<u8> {
 //------------ the plan of one object ----------------------------------------------------
 
 #[derive(Clone, Copy, Debug, PartialEq, Eq, PartialOrd, Ord)]
-enum DigestV { Ok, FlipFirst, FlipLast, Short31, Long33, Empty, OfOtherContent }
+enum DigestV { Ok, FlipFirst, FlipLast, Short31, Long33, Empty, OfOtherContent,
+    /// the correct digest of ANOTHER valid content of the kind (entry 1 of its content menu); history subjects only
+    OfSibling }
 #[derive(Clone, Copy, Debug, PartialEq, Eq, PartialOrd, Ord)]
 enum SigV { Ok, OtherKey, OverImplicitTag, OverContent, FlipLastBit,
     /// the correct signature value without its last octet / without any octet (history predecessors only)
@@ -322,6 +336,7 @@ fn plan_attrs(p: &Plan) -> Vec<Vec<u8>> {
         DigestV::Long33 => { let mut d = good; d.push(0); d }
         DigestV::Empty => Vec::new(),
         DigestV::OfOtherContent => { let mut c = p.content.clone(); c.push(0); sha256(&c) }
+        DigestV::OfSibling => sha256(&content_menu(p.kind)[1].covered),
     };
     let ct_attr_oid = if p.ct == CtV::AttrOther { p.kind.other_ct() } else { p.ect.clone() };
     let base = base_attrs(&ct_attr_oid, &dg, p.st_gen, p.st_secs);
@@ -826,6 +841,9 @@ fn main() {
     //--- (4g) fields no stated condition mentions; validity x signing time x evaluation instant ------------------------------
     ignored_fields(&ctx, &fx, thorough);
     interactions_time(&ctx, &fx, thorough);
+
+    //--- (4g') every entry point gives the same verdict ----------------------------------------------------------------------
+    routes_equivalence(&ctx, &fx, &ees, &perms);
 
     //--- (4h) the environment: TZ ------------------------------------------------------------------------------------------
     environment_tz(&ctx);
@@ -1739,12 +1757,16 @@ struct EeOpt {
     sia: String,
     crl: String,
     aia: String,
+    /// a non-critical extension nobody registered, written after the subject key identifier
+    unknown_ext: bool,
+    /// an id-ad-rpkiNotify access description in the SIA
+    notify: bool,
 }
 
 impl EeOpt {
     fn base(kind: Kind) -> EeOpt {
         EeOpt { res: default_res(kind), overclaim: Overclaim::Refuse, v: EeV::Ok, serial: vec![100 + kind as u8], nb: T0 - DAY, na: FAR, subject: None, issuer: None,
-                sia: "rsync://example.net/repo/ca/obj.roa".into(), crl: "rsync://example.net/repo/ca/ca.crl".into(), aia: "rsync://example.net/repo/ca.cer".into() }
+                sia: "rsync://example.net/repo/ca/obj.roa".into(), crl: "rsync://example.net/repo/ca/ca.crl".into(), aia: "rsync://example.net/repo/ca.cer".into(), unknown_ext: false, notify: false }
     }
 }
 
@@ -1771,11 +1793,21 @@ fn ee_custom(fx: &Fx, o: &EeOpt) -> Vec<u8> {
     tbs.set_signed_object(Some(pki::rsync(&o.sia)));
     tbs.set_crl_uri(Some(pki::rsync(&o.crl)));
     tbs.set_ca_issuer(Some(pki::rsync(&o.aia)));
+    if o.notify { tbs.set_rpki_notify(Some(std::str::FromStr::from_str("https://rrdp.example.net/notification.xml").expect("https URI"))) }
     tbs.set_authority_key_identifier(Some(if o.v == EeV::AkiMismatch { fx.s.ski(K_CA2) } else { fx.s.ski(K_CA) }));
     tbs.set_v4_resources(pki::ip_res(32, &o.res.v4));
     tbs.set_v6_resources(pki::ip_res(128, &o.res.v6));
     tbs.set_as_resources(pki::as_res(&o.res.asn));
-    let tbs_der = bcder::Captured::from_values(bcder::Mode::Der, tbs.encode_ref()).as_slice().to_vec();
+    let mut tbs_der = bcder::Captured::from_values(bcder::Mode::Der, tbs.encode_ref()).as_slice().to_vec();
+    if o.unknown_ext {
+        use rpki_verif::engine::certref;
+        let private = der::oid(&[1, 3, 6, 1, 4, 1, 99999, 9, 9]);
+        tbs_der = certref::map_extensions(&tbs_der, &mut |oid, whole| {
+            let mut v = vec![whole.to_vec()];
+            if oid == certref::OID_SKI { v.push(certref::extension(&private[2..], false, &der::seq(&[der::utf8("ignored"), der::int_u(7)]))) }
+            v
+        });
+    }
     pki::sign_tbs(&fx.s, if o.v == EeV::WrongIssuerKey { K_CA2 } else { K_CA }, &tbs_der)
 }
 
@@ -1803,7 +1835,7 @@ fn run_at(kind: Kind, bytes: &[u8], issuer: &ResourceCert, strict: bool, t: Time
 }
 
 #[derive(Clone, Debug)]
-enum EeField { Serial(Vec<u8>), Subject(Vec<u8>), Issuer(Vec<u8>), Window(i64, i64), Sia(String), Crl(String), Aia(String) }
+enum EeField { Serial(Vec<u8>), Subject(Vec<u8>), Issuer(Vec<u8>), Window(i64, i64), Sia(String), Crl(String), Aia(String), UnknownExt, Notify }
 
 #[derive(Clone, Debug)]
 enum IgnOp {
@@ -1967,6 +1999,8 @@ fn ign_menu(fx: &Fx, kind: Kind, contents: &[ContentVar]) -> Vec<Ign> {
                              ("ee.aia", EeField::Aia as fn(String) -> EeField, ["rsync://other.example/module/other.cer".to_string(), long.clone(), "rsync://example.net/repo/ca/obj.roa".to_string()])] {
         for u in uris { m.push(Ign { family: fam, label: trunc(&u, 60), must_admit: true, op: IgnOp::Ee(mkf(u)) }) }
     }
+    m.push(Ign { family: "ee.extensions", label: "a non-critical private extension 1.3.6.1.4.1.99999.9.9".into(), must_admit: false, op: IgnOp::Ee(EeField::UnknownExt) });
+    m.push(Ign { family: "ee.extensions", label: "id-ad-rpkiNotify in the SIA".into(), must_admit: false, op: IgnOp::Ee(EeField::Notify) });
     for (i, c) in contents.iter().enumerate().skip(1) {
         m.push(Ign { family: "content", label: c.label.clone(), must_admit: c.must_admit, op: IgnOp::Content(i) });
     }
@@ -2010,7 +2044,7 @@ fn ign_build(fx: &Fx, kind: Kind, igns: &[&Ign], cond: Cond, contents: &[Content
             IgnOp::Crl => p.crls.push(crl_der.to_vec()),
             IgnOp::Ee(f) => match f.clone() {
                 EeField::Serial(s) => ee.serial = s, EeField::Subject(d) => ee.subject = Some(d), EeField::Issuer(d) => ee.issuer = Some(d),
-                EeField::Window(a, b) => { ee.nb = a; ee.na = b } EeField::Sia(u) => ee.sia = u, EeField::Crl(u) => ee.crl = u, EeField::Aia(u) => ee.aia = u,
+                EeField::Window(a, b) => { ee.nb = a; ee.na = b } EeField::Sia(u) => ee.sia = u, EeField::Crl(u) => ee.crl = u, EeField::Aia(u) => ee.aia = u, EeField::UnknownExt => ee.unknown_ext = true, EeField::Notify => ee.notify = true,
             },
             IgnOp::Content(i) => ci = *i,
         }
@@ -2038,7 +2072,7 @@ fn ign_build(fx: &Fx, kind: Kind, igns: &[&Ign], cond: Cond, contents: &[Content
 
 fn ignored_fields(ctx: &Ctx, fx: &Fx, thorough: bool) {
     let sp = ctx.space("ignored.fields",
-        "every field of a signed object and of its EE certificate that the acceptance predicate does not name, swept over a boundary-dense domain, one deviation at a time (and all pairs of deviations of two different fields: quick over 2 representatives per field, thorough over the whole menu): signing-time value (30 instants from 0001 to 9999 placed before / at / after the EE certificate's notBefore and notAfter, the evaluation instant, the UTCTime / GeneralizedTime switch, 2^31 and 2^32 seconds, a yearly ladder that the wall clock of process() lies on) x UTCTime / GeneralizedTime; binary-signing-time (agreeing / disagreeing / first), an unknown attribute, a second certificate, a crls field (the decoder may refuse these; counted); EE serial (1 .. 2^159-1, 0), subject name (5), issuer name (4, none equal to the issuer certificate's subject), validity far wider / narrower than the issuer's with the evaluation instant inside, SIA / CRLDP / AIA URIs (3 each); ROA asID (8) and written-out version, ASPA provider lists (8; customer among the providers: decoder may refuse), manifest number (0 .. 2^159-1; 2^160), thisUpdate / nextUpdate before / at / after the evaluation instant and the EE window (stale, not yet current, 1950, 9999), UTCTime form, empty file list, generic content (4). Each crossed with {all conditions satisfied; 13 single violations (digest 2, signature 3, sid, EE certificate 3, content type 2, cardinality 2); ROA / ASPA: coverage violated; generic / ROA / ASPA: CRL callback Err} x strict / relaxed. Oracle: all satisfied and value well-formed -> accepted; all satisfied and the decoder may refuse the value -> not rejected at validation; any violation -> rejected; non-trivial = distinct object encodings with a deviating ignored field");
+        "every field of a signed object and of its EE certificate that the acceptance predicate does not name, swept over a boundary-dense domain, one deviation at a time (and all pairs of deviations of two different fields: quick over 2 representatives per field, thorough over the whole menu): signing-time value (30 instants from 0001 to 9999 placed before / at / after the EE certificate's notBefore and notAfter, the evaluation instant, the UTCTime / GeneralizedTime switch, 2^31 and 2^32 seconds, a yearly ladder that the wall clock of process() lies on) x UTCTime / GeneralizedTime; binary-signing-time (agreeing / disagreeing / first), an unknown attribute, a second certificate, a crls field (the decoder may refuse these; counted); EE serial (1 .. 2^159-1, 0), subject name (5), issuer name (4, none equal to the issuer certificate's subject), validity far wider / narrower than the issuer's with the evaluation instant inside, SIA / CRLDP / AIA URIs (3 each), a non-critical private extension and an rpkiNotify access description (the decoder may refuse these); ROA asID (8) and written-out version, ASPA provider lists (8; customer among the providers: decoder may refuse), manifest number (0 .. 2^159-1; 2^160), thisUpdate / nextUpdate before / at / after the evaluation instant and the EE window (stale, not yet current, 1950, 9999), UTCTime form, empty file list, generic content (4). Each crossed with {all conditions satisfied; 13 single violations (digest 2, signature 3, sid, EE certificate 3, content type 2, cardinality 2); ROA / ASPA: coverage violated; generic / ROA / ASPA: CRL callback Err} x strict / relaxed. Oracle: all satisfied and value well-formed -> accepted; all satisfied and the decoder may refuse the value -> not rejected at validation; any violation -> rejected; non-trivial = distinct object encodings with a deviating ignored field");
     let ca_der = pki::build_cert_der(&fx.s, &Spec::issued(pki::Kind::Ca, K_CA, K_TA, fx.s.ski(K_TA), Res::all(), Overclaim::Refuse));
     let crl_der = issuer_crl(fx);
     let t = Tally::new();
@@ -2065,7 +2099,7 @@ fn ignored_fields(ctx: &Ctx, fx: &Fx, thorough: bool) {
             }
             r
         };
-        let pair_conds: Vec<usize> = if thorough { (0..conds.len()).collect() } else { (0..conds.len()).filter(|&c| matches!(conds[c], Cond::Sat | Cond::V(Viol::D(DigestV::FlipLast)) | Cond::V(Viol::S(SigV::OtherKey)) | Cond::V(Viol::E(EeV::Expired)) | Cond::Uncovered | Cond::CallbackErr)).collect() };
+        let pair_conds: Vec<usize> = { (0..conds.len()).filter(|&c| matches!(conds[c], Cond::Sat | Cond::V(Viol::D(DigestV::FlipLast)) | Cond::V(Viol::S(SigV::OtherKey)) | Cond::V(Viol::E(EeV::Expired)) | Cond::Uncovered | Cond::CallbackErr)).collect() };
         let n_single_sets = sets.len();
         for (x, &a) in reps.iter().enumerate() { for &b in reps.iter().skip(x + 1) { if menu[a].family != menu[b].family { sets.push(vec![a, b]) } } }
         total_pairs += sets.len() - n_single_sets;
@@ -2076,9 +2110,9 @@ fn ignored_fields(ctx: &Ctx, fx: &Fx, thorough: bool) {
             let cond = conds[c];
             let must = igns.iter().all(|g| g.must_admit);
             let built = guard(|| ign_build(fx, kind, &igns, cond, &contents, &ca_der, &crl_der));
-            let describe = |strict: bool, entry: Entry| format!("kind={} strict={strict} entry={} ignored-fields=[{}] violated=[{}] (EE certificate valid {}..{} unless stated, evaluation at {})", kind.name(),
+            let describe = |strict: bool, entry: Entry| format!("deviations={} kind={} strict={strict} entry={} ignored-fields=[{}] violated=[{}] (unless stated: EE certificate valid {}..{}, signing-time {}; evaluation at {})", igns.len(), kind.name(),
                 match entry { Entry::At => "validate_at", Entry::Process(_) => "process" },
-                igns.iter().map(|g| format!("{}: {}", g.family, g.label)).collect::<Vec<_>>().join("; "), cond_name(cond), iso(T0 - DAY), iso(FAR),
+                igns.iter().map(|g| format!("{}: {}", g.family, g.label)).collect::<Vec<_>>().join("; "), cond_name(cond), iso(T0 - DAY), iso(FAR), iso(T0 - 60),
                 match entry { Entry::At => iso(T0), Entry::Process(_) => "the wall clock".into() });
             let (bytes, entry) = match built { Ok(x) => x, Err(pn) => { fail("C02.no_panic", describe(true, Entry::At), format!("while building the object: {pn}")); return } };
             if !igns.is_empty() { t.seen(&bytes) }
@@ -2109,7 +2143,7 @@ fn ignored_fields(ctx: &Ctx, fx: &Fx, thorough: bool) {
     sp.set("pairs_of_deviations", serde_json::json!(total_pairs));
     sp.sample_str(|| format!("kind=roa ignored-fields=[signing-time: {} as GeneralizedTime] violated=[] -> accepted; with violated=[digest:FlipLast] -> rejected", iso(FAR + 1)));
     sp.sample_str(|| "kind=mft ignored-fields=[content: stale: thisUpdate=eval-2d nextUpdate=eval-1d] violated=[] -> accepted (staleness is not a stated condition of validate_at)".to_string());
-    sp.done(true, &format!("4 kinds x (1 + {} single deviations) x 14-16 conditions x 2 modes; {} pairs of deviations of different fields x {} conditions x 2 modes", total_single, total_pairs, if thorough { "all" } else { "4-6" }));
+    sp.done(true, &format!("4 kinds x (1 + {} single deviations) x 14-16 conditions x 2 modes; {} pairs of deviations of different fields x {} conditions x 2 modes", total_single, total_pairs, "4-6"));
 }
 
 //------------ validity x signing time x evaluation instant ------------------------------------------------------------
@@ -2273,6 +2307,8 @@ fn hist_ops(fx: &Fx, ees: &BTreeMap<(Kind, EeV), Vec<u8>>) -> (Vec<Op>, Vec<Op>)
         subj.push(op(format!("{n}.signature-by-other-key"), k, &with(k, Viol::S(SigV::OtherKey))));
         subj.push(op(format!("{n}.sid-bad"), k, &with(k, Viol::I(SidV::OtherSki))));
         subj.push(op(format!("{n}.ee-expired"), k, &with(k, Viol::E(EeV::Expired))));
+        // carries the correct digest of the content of the predecessor `same-ee-other-content`
+        subj.push(op(format!("{n}.digest-of-sibling-content"), k, &with(k, Viol::D(DigestV::OfSibling))));
         subj.push(Op { strict: false, ..op(format!("{n}.valid.relaxed"), k, &base) });
         // further predecessors: every remaining variant of every condition
         for v in all_single() {
@@ -2345,7 +2381,7 @@ fn hist_ops(fx: &Fx, ees: &BTreeMap<(Kind, EeV), Vec<u8>>) -> (Vec<Op>, Vec<Op>)
 
 fn history_independent(ctx: &Ctx, fx: &Fx, ees: &BTreeMap<(Kind, EeV), Vec<u8>>, thorough: bool) {
     let sp = ctx.space("history.independent",
-        "on a NEW OS thread (fresh thread-locals): one predecessor (thorough: every ordered pair of predecessors), then every subject, then every subject again in reverse order; subjects: per kind {valid, digest wrong, signed by another key, sid wrong, EE expired, valid decoded relaxed} plus ROA uncovered / ASPA customer uncovered / another attribute order / signed attributes needing the one- and two-octet long-form length (valid and signed over the [0] encoding) / 65536 octets of content / signing time 2050 / process() with callback Ok and Err / another CA / evaluated after notAfter; predecessors: the subjects and, per kind, an operation leaving at every distinct stage: decode errors (empty, one octet, truncated half / last octet, trailing octet, garbage, wrong kind, an unknown attribute after 0, 1, 2, 3 valid attributes, binary-signing-time, eContent truncated / garbage under a correct signature, every cardinality and content-type variant), every digest variant, sid variants, every signature variant (other key, over the [0] encoding, over the content, last bit, one octet short, empty) strict and relaxed, every EE failure (signed by another key, AKI, expired, under another CA, overclaiming its issuer, IP resources on an ASPA EE), evaluation before / after the window, callback Err, a callback that panics (caught), the same EE certificate with another content, the same content under another EE serial, a BER respelling accepted relaxed / refused strict; oracle (differential, nothing expected by hand): every observation (verdict with its message, decoded fields, validated resources) equals the observation of the same subject evaluated first thing on its own new thread; non-trivial = compared observations that follow a different operation");
+        "on a NEW OS thread (fresh thread-locals): one predecessor (thorough: every ordered pair of predecessors), then every subject, then every subject again in reverse order; and every (predecessor, subject) pair alone on a new thread, the subject right after the predecessor; subjects: per kind {valid, digest wrong, signed by another key, sid wrong, EE expired, valid decoded relaxed} plus the correct digest of a sibling content (the content of the predecessor `same-ee-other-content`) / ROA uncovered / ASPA customer uncovered / another attribute order / signed attributes needing the one- and two-octet long-form length (valid and signed over the [0] encoding) / 65536 octets of content / signing time 2050 / process() with callback Ok and Err / another CA / evaluated after notAfter; predecessors: the subjects and, per kind, an operation leaving at every distinct stage: decode errors (empty, one octet, truncated half / last octet, trailing octet, garbage, wrong kind, an unknown attribute after 0, 1, 2, 3 valid attributes, binary-signing-time, eContent truncated / garbage under a correct signature, every cardinality and content-type variant), every digest variant, sid variants, every signature variant (other key, over the [0] encoding, over the content, last bit, one octet short, empty) strict and relaxed, every EE failure (signed by another key, AKI, expired, under another CA, overclaiming its issuer, IP resources on an ASPA EE), evaluation before / after the window, callback Err, a callback that panics (caught), the same EE certificate with another content, the same content under another EE serial, a BER respelling accepted relaxed / refused strict; oracle (differential, nothing expected by hand): every observation (verdict with its message, decoded fields, validated resources) equals the observation of the same subject evaluated first thing on its own new thread; non-trivial = compared observations that follow a different operation");
     let issuers = hist_issuers(fx);
     let (subj, more) = hist_ops(fx, ees);
     let mut preds: Vec<Op> = subj.clone(); preds.extend(more);
@@ -2386,13 +2422,24 @@ fn history_independent(ctx: &Ctx, fx: &Fx, ees: &BTreeMap<(Kind, EeV), Vec<u8>>,
             }
         }
     });
+    // every predecessor IMMEDIATELY followed by every subject (a one-entry memo is overwritten by whatever comes in between)
+    let pairs: Vec<(usize, usize)> = (0..preds.len()).flat_map(|p| (0..ns).map(move |s| (p, s))).collect();
+    pairs.par_iter().for_each(|&(pi, si)| {
+        let obs = on_new_thread(&|| vec![observe(&issuers, &preds[pi]), observe(&issuers, &subj[si])]);
+        sp.evals(2); sp.nontrivial(1);
+        if obs.len() != 2 { fail("C02.history.independent", format!("new thread: {} -> {}", preds[pi].name, subj[si].name), format!("the thread running the sequence died: {:?}", obs.last())); return }
+        if obs[1] != fresh[si] {
+            fail("C02.history.independent", format!("new thread: {} -> {} (nothing in between)", preds[pi].name, subj[si].name),
+                format!("after this predecessor: `{}`; first thing on a new thread: `{}`", trunc(&obs[1], 200), trunc(&fresh[si], 200)));
+        }
+    });
     let pc = pred_class.into_inner().unwrap();
     for (k, n) in &pc { sp.outcomes_n(&format!("predecessor: {k}"), *n) }
     sp.set("subjects", serde_json::json!(subj.iter().zip(&fresh).map(|(s, f)| format!("{} -> {}", s.name, trunc(f, 100))).collect::<Vec<_>>()));
     sp.set("predecessors", serde_json::json!(preds.len()));
     sp.set("predecessor_exit_paths", serde_json::json!(pc.len()));
     sp.sample_str(|| format!("new thread: roa.signature:FlipLastBit -> {} subjects -> the same in reverse; each compared with its fresh-thread observation, e.g. {} -> {}", ns, subj[0].name, trunc(&fresh[0], 120)));
-    sp.done(true, &format!("{} predecessors{} x {} subjects forward and in reverse, one new OS thread per sequence", preds.len(), if thorough { " and all their ordered pairs" } else { "" }, ns));
+    sp.done(true, &format!("{} predecessors{} x {} subjects forward and in reverse; {} x {} immediate (predecessor, subject) pairs; one new OS thread per sequence", preds.len(), if thorough { " and all their ordered pairs" } else { "" }, ns, preds.len(), ns));
 }
 
 //------------ environment: TZ ---------------------------------------------------------------------------------------------
@@ -2418,7 +2465,7 @@ fn env_observations() -> Vec<String> {
             let bytes = assemble(&fx, &Plan::base(k), &ee_cached(&fx, &ee));
             for at in [nb - 1, nb, nb + 1, na - 1, na, na + 1] {
                 let o = Op { name: String::new(), kind: k, bytes: bytes.clone(), issuer: 0, strict: true, entry: Entry::At, cb_panics: false, at };
-                out.push(format!("{} EE window {}..{} evaluated at {} -> {}", k.name(), nb, na, at, observe(&issuers, &o)));
+                out.push(format!("{} EE window {}..{} evaluated at {} -> {}", k.name(), iso(nb), iso(na), iso(at), observe(&issuers, &o)));
             }
         }
     }
@@ -2455,4 +2502,91 @@ fn environment_tz(ctx: &Ctx) {
     if !std::path::Path::new("/usr/share/zoneinfo/America/New_York").exists() { ctx.assume("environment.tz: no zone database in this sandbox; only the POSIX TZ strings change the local zone") }
     sp.sample_str(|| trunc(&here[0], 200));
     sp.done(true, &format!("7 TZ settings x {} observations", here.len()));
+}
+
+//------------ entry-point equivalence ---------------------------------------------------------------------------------------
+
+/// Every public route that yields and judges an object. `None` = the route does not apply to (kind, mode).
+fn route_verdicts(fx: &Fx, kind: Kind, bytes: &[u8], strict: bool) -> Vec<(&'static str, Option<Verdict>)> {
+    use bcder::{Mode, Oid};
+    use bcder::encode::Values;
+    use base64::Engine;
+    let b = || Bytes::copy_from_slice(bytes);
+    let issuer = &fx.ca;
+    let mode = if strict { Mode::Der } else { Mode::Ber };
+    let ok_cb = |_: &rpki::repository::cert::Cert| -> Result<(), ValidationError> { Ok(()) };
+    let g = |f: &dyn Fn() -> Verdict| -> Verdict { match guard(f) { Ok(v) => v, Err(p) => Verdict::Panic(p) } };
+    let val = |r: Result<ResourceCert, ValidationError>| match r { Ok(_) => Verdict::Accept, Err(e) => Verdict::Invalid(e.to_string()) };
+    let ct: Oid<Bytes> = { let t = der::oid(&kind.ect()); Oid(Bytes::copy_from_slice(&t[2..])) };
+    let mut out: Vec<(&'static str, Option<Verdict>)> = Vec::new();
+    out.push(("SignedObject::decode + validate_at", Some(g(&|| match SignedObject::decode(b(), strict) { Err(e) => Verdict::Decode(e.to_string()), Ok(o) => val(o.validate_at(issuer, strict, pki::time(T0))) }))));
+    out.push(("Mode::decode(SignedObject::take_from) + validate_at", Some(g(&|| match mode.decode(b(), SignedObject::take_from) { Err(e) => Verdict::Decode(e.to_string()), Ok(o) => val(o.validate_at(issuer, strict, pki::time(T0))) }))));
+    out.push(("SignedObject::decode_if_type + validate_at", Some(g(&|| match SignedObject::decode_if_type(b(), &ct, strict) { Err(e) => Verdict::Decode(e.to_string()), Ok(o) => val(o.validate_at(issuer, strict, pki::time(T0))) }))));
+    out.push(("SignedObject::decode + validate (wall clock)", Some(g(&|| match SignedObject::decode(b(), strict) { Err(e) => Verdict::Decode(e.to_string()), Ok(o) => val(o.validate(issuer, strict)) }))));
+    out.push(("SignedObject::decode + process (wall clock)", Some(g(&|| match SignedObject::decode(b(), strict) { Err(e) => Verdict::Decode(e.to_string()), Ok(o) => match o.process(issuer, strict, ok_cb) { Ok(_) => Verdict::Accept, Err(e) => Verdict::Invalid(e.to_string()) } }))));
+    out.push(("SignedObject::decode + clone().validate_at, then validate_at on the original", Some(g(&|| match SignedObject::decode(b(), strict) { Err(e) => Verdict::Decode(e.to_string()), Ok(o) => {
+        let first = val(o.clone().validate_at(issuer, strict, pki::time(T0)));
+        let second = val(o.validate_at(issuer, strict, pki::time(T0)));
+        if first.accepted() != second.accepted() { Verdict::Panic(format!("the clone gives `{}`, the original afterwards `{}`", first.show(), second.show())) } else { second }
+    } }))));
+    // re-encoding a relaxed-decoded object is a known finding of its own (bcder mode assertion); strict only
+    out.push(("SignedObject::decode + encode_ref + decode + validate_at", if !strict { None } else { Some(g(&|| match SignedObject::decode(b(), true) { Err(e) => Verdict::Decode(e.to_string()), Ok(o) => {
+        let again = o.encode_ref().to_captured(Mode::Der).into_bytes();
+        match SignedObject::decode(again, true) { Err(e) => Verdict::Decode(format!("re-encoded object: {e}")), Ok(o2) => val(o2.validate_at(issuer, true, pki::time(T0))) }
+    } })) }));
+    let b64 = || format!("\"{}\"", base64::engine::general_purpose::STANDARD.encode(bytes));
+    match kind {
+        Kind::Roa => {
+            out.push(("Roa::decode + process", Some(g(&|| match Roa::decode(b(), strict) { Err(e) => Verdict::Decode(e.to_string()), Ok(o) => match o.process(issuer, strict, ok_cb) { Ok(_) => Verdict::Accept, Err(e) => Verdict::Invalid(e.to_string()) } }))));
+            out.push(("serde: Roa from base64 + process", if !strict { None } else { Some(g(&|| match serde_json::from_str::<Roa>(&b64()) { Err(e) => Verdict::Decode(e.to_string()), Ok(o) => match o.process(issuer, true, ok_cb) { Ok(_) => Verdict::Accept, Err(e) => Verdict::Invalid(e.to_string()) } })) }));
+        }
+        Kind::Aspa => {
+            out.push(("Aspa::decode + process", Some(g(&|| match Aspa::decode(b(), strict) { Err(e) => Verdict::Decode(e.to_string()), Ok(o) => match o.process(issuer, strict, ok_cb) { Ok(_) => Verdict::Accept, Err(e) => Verdict::Invalid(e.to_string()) } }))));
+            out.push(("serde: Aspa from base64 + process", if !strict { None } else { Some(g(&|| match serde_json::from_str::<Aspa>(&b64()) { Err(e) => Verdict::Decode(e.to_string()), Ok(o) => match o.process(issuer, true, ok_cb) { Ok(_) => Verdict::Accept, Err(e) => Verdict::Invalid(e.to_string()) } })) }));
+        }
+        Kind::Mft => {
+            out.push(("Manifest::decode + validate_at", Some(g(&|| match Manifest::decode(b(), strict) { Err(e) => Verdict::Decode(e.to_string()), Ok(o) => match o.validate_at(issuer, strict, pki::time(T0)) { Ok(_) => Verdict::Accept, Err(e) => Verdict::Invalid(e.to_string()) } }))));
+            out.push(("Manifest::decode + validate (wall clock)", Some(g(&|| match Manifest::decode(b(), strict) { Err(e) => Verdict::Decode(e.to_string()), Ok(o) => match o.validate(issuer, strict) { Ok(_) => Verdict::Accept, Err(e) => Verdict::Invalid(e.to_string()) } }))));
+            out.push(("serde: Manifest from base64 + validate_at", if !strict { None } else { Some(g(&|| match serde_json::from_str::<Manifest>(&b64()) { Err(e) => Verdict::Decode(e.to_string()), Ok(o) => match o.validate_at(issuer, true, pki::time(T0)) { Ok(_) => Verdict::Accept, Err(e) => Verdict::Invalid(e.to_string()) } })) }));
+        }
+        Kind::Gen => {}
+    }
+    out
+}
+
+fn routes_equivalence(ctx: &Ctx, fx: &Fx, ees: &BTreeMap<(Kind, EeV), Vec<u8>>, perms: &[[usize; 3]]) {
+    let sp = ctx.space("routes.equivalence",
+        "every public route that yields and judges an object - SignedObject::decode, Mode::Der/Ber.decode(SignedObject::take_from), decode_if_type, each followed by validate_at; decode + validate (wall clock); decode + process; validation of a clone and then of the original; decode + encode_ref + decode (strict); the typed wrappers Roa / Aspa::decode + process, Manifest::decode + validate_at / validate; serde (base64) + the typed validator (strict) - crossed with 4 kinds x {all conditions satisfied, every variant of every single violation (38)} x 2 attribute orders x strict / relaxed; ROA / ASPA additionally with the coverage condition violated (typed routes reject, generic routes are not asked). Oracle: every route accepts <=> all stated conditions hold; hence all routes agree; non-trivial = (object, route) pairs with a violated condition");
+    let singles = all_single();
+    let t = Tally::new();
+    let nt = Mutex::new(0u64);
+    let routes_seen: Mutex<BTreeSet<&'static str>> = Mutex::new(BTreeSet::new());
+    let mut jobs: Vec<(Kind, [usize; 3], usize, bool)> = Vec::new();
+    for k in KINDS { for o in [perms[0], perms[3]] { for vi in 0..=singles.len() + 1 { for strict in [true, false] {
+        if vi == singles.len() + 1 && !matches!(k, Kind::Roa | Kind::Aspa) { continue }
+        jobs.push((k, o, vi, strict));
+    }}}}
+    jobs.par_iter().for_each(|&(k, o, vi, strict)| {
+        let mut p = Plan::base(k); p.order = o;
+        let uncovered = vi == singles.len() + 1;
+        if vi >= 1 && !uncovered { singles[vi - 1].apply(&mut p) }
+        if uncovered { p.content = content_menu(k)[0].uncovered.clone().unwrap() }
+        let bytes = assemble(fx, &p, &ees[&(k, p.ee)]);
+        let want = p.all_ok() && !uncovered;
+        for (route, v) in route_verdicts(fx, k, &bytes, strict) {
+            let Some(v) = v else { continue };
+            // coverage is judged by the typed validators only
+            let typed = route.starts_with("Roa") || route.starts_with("Aspa") || route.starts_with("serde");
+            if uncovered && !typed { continue }
+            sp.eval(); t.add(v.class());
+            routes_seen.lock().unwrap().insert(route);
+            if !want { *nt.lock().unwrap() += 1 }
+            expect(ctx, "C02.routes.accept", "C02.routes.reject", want, &v, || format!("route=`{route}` {}{}", p.witness(strict), if uncovered { " coverage violated" } else { "" }));
+        }
+    });
+    sp.merge_outcomes(&t.oc.lock().unwrap());
+    sp.nontrivial(*nt.lock().unwrap());
+    sp.set("routes", serde_json::json!(routes_seen.into_inner().unwrap()));
+    sp.sample_str(|| "route=`Mode::decode(SignedObject::take_from) + validate_at` kind=generic violated=[sid:FlipLastBit] -> rejected, as through every other route".to_string());
+    sp.done(true, &format!("4 kinds x (1 + {} single violations [+ coverage]) x 2 orders x 2 modes x 7-10 routes", singles.len()));
 }
